@@ -104,6 +104,9 @@ func (a *AuthSpec) Verdict(user, pass string) string {
 
 type MW struct {
 	Fail *ErrSpec `json:"fail,omitempty"`
+	// Cancelable: the middleware returns a context the application can cancel (Env.CancelSession, or
+	// the "cancelsess" operation of a statement): an application-level "kill this session"
+	Cancelable bool `json:"cancelable,omitempty"`
 }
 
 // Config of the server under test.
@@ -222,6 +225,7 @@ type Env struct {
 	retained []Retained
 	ctxs     []capturedCtx
 	gates    map[string]chan struct{}
+	cancels  map[int][]context.CancelFunc
 	panics   []PanicRec
 
 	serveDone   chan error
@@ -770,7 +774,27 @@ func (e *Env) middleware(i int) wire.SessionHandler {
 			return ctx, err
 		}
 		e.add(ev)
+		if e.Cfg.MWs[i].Cancelable {
+			var cancel context.CancelFunc
+			ctx, cancel = context.WithCancel(ctx)
+			e.mu.Lock()
+			if e.cancels == nil {
+				e.cancels = map[int][]context.CancelFunc{}
+			}
+			e.cancels[connID(ctx)] = append(e.cancels[connID(ctx)], cancel)
+			e.mu.Unlock()
+		}
 		return context.WithValue(ctx, mwKey(i), fmt.Sprintf("%d:%d:%s", i, connID(ctx), prev)), nil
+	}
+}
+
+// CancelSession cancels the contexts the cancelable middlewares returned for the connection.
+func (e *Env) CancelSession(conn int) {
+	e.mu.Lock()
+	cs := e.cancels[conn]
+	e.mu.Unlock()
+	for _, c := range cs {
+		c()
 	}
 }
 
@@ -904,6 +928,15 @@ func (e *Env) runOps(ctx context.Context, w wire.DataWriter, query string, idx i
 		case "written":
 		case "gate":
 			e.waitGate(ctx, op.Gate)
+		case "cancelsess":
+			e.CancelSession(connID(ctx))
+		case "closesrv":
+			// Server.Close from another goroutine; the statement goes on once Close has visibly
+			// started (the listener was closed) or after a short while (schedule shaping, not an oracle)
+			go func() { _ = e.Srv.Close() }()
+			for t0 := time.Now(); e.L.CloseCount() == 0 && time.Since(t0) < 50*time.Millisecond; {
+				time.Sleep(20 * time.Microsecond)
+			}
 		case "ret":
 			ev.Written = w.Written()
 			ev.Out1 = e.outLen(ctx)
